@@ -1,10 +1,12 @@
 """C15 — lexing: whitespace-insensitive, quote-faithful, normalises Python code, spans delimit tokens (CrossHair harnesses)."""
+import re
+
 from formulaic.errors import FormulaSyntaxError
 from formulaic.parser.algos.tokenize import tokenize
 
 from harness import parser_common as pc
 
-for _k, _v in (("__SHARD__", 0), ("__N__", 2), ("__J__", 0), ("__S__", 1), ("__C3LO__", 13), ("__C2LO__", 13)):
+for _k, _v in (("__SHARD__", 0), ("__N__", 2), ("__J__", 0), ("__S__", 1), ("__C3LO__", 13), ("__C2LO__", 13), ("__K2LO__", 101)):
     globals().setdefault(_k, _v)
 
 
@@ -131,6 +133,29 @@ def _name_is_factor(n: str) -> bool:
     f = Formula.from_spec("`" + n + "`")
     terms = [[fa.expr for fa in t.factors] for t in f]
     return terms == [["1"], [n]]
+
+
+PY_WRAPPERS = ["abs({})", "{{{} + 1}}", "f({}, 'a', b.a)", "np.log({} + a.b)"]
+
+
+def quote_in_python(k: int, k2: int, w: int) -> bool:
+    """
+    pre: 0 <= k < 101 and 0 <= k2 <= 101 and 0 <= w < 4 and k % 4 == __SHARD__ and k2 >= __K2LO__
+    post: _
+    """
+    # a back-tick quoted name INSIDE a Python fragment is taken verbatim too - whatever else the fragment contains
+    # (other identifiers containing the name, attribute accesses, string literals): the factor is the fragment as written
+    k, k2, w = _pick(k, 0, 100), _pick(k2, 0, 101), _pick(w, 0, 3)
+    n = NAME_CHARS[k] + (NAME_CHARS[k2] if k2 < 101 else "")
+    from formulaic.formula import Formula
+
+    src = PY_WRAPPERS[w].format("`" + n + "`")
+    f = Formula.from_spec(src)
+    terms = [[fa.expr for fa in t.factors] for t in f]
+    want = src[1:-1] if src.startswith("{") else src
+    # a quoted name that is a valid identifier denotes the same variable with or without its back-ticks
+    bare = lambda e: re.sub(r"`([A-Za-z_][A-Za-z_0-9]*)`", lambda m: m.group(1), e)
+    return len(terms) == 2 and terms[0] == ["1"] and len(terms[1]) == 1 and bare(terms[1][0]) == bare(want)
 
 
 def quote_python(c: str) -> bool:
@@ -293,6 +318,9 @@ def explain(fname, call):
             return f"spans: tokens of {a[0]!r}: {[(t.token, t.kind.value, t.source_start, t.source_end) for t in tokenize(a[0])]}"
         if fname == "pystr":
             return f"quoting: python fragment {PYSTR[a[0]]!r} (strings / quoted names containing brackets) is not taken verbatim"
+        if fname == "quote_in_python":
+            n = NAME_CHARS[a[0]] + (NAME_CHARS[a[1]] if a[1] < 101 else "")
+            return f"quoting-in-python: the fragment {PY_WRAPPERS[a[2]].format('`' + n + '`')!r} is not taken as written"
         if fname == "pylit":
             text = "".join(LIT_ALPHABET[c] for c in a[1:5] if c < 13)
             return f"string-literal-changed: the literal {text!r} written inside a Python fragment ({['call', 'brace-quoted subscript'][a[5]]}) is not the literal the factor evaluates"
